@@ -37,7 +37,7 @@ CHECKS = {
         design_ref="DESIGN.md §5 C05", note=_KM_NOTE + " Real hashbrown's own unsafe code is not executed by KM.",
         technique="SAT-based bounded model checking (Kani/CBMC) with contract (ghost) assertions and CBMC pointer checks"),
     "C07": dict(
-        text="PARTIAL: Kani has no unwinding, so a caught panic cannot be executed. Decided instead: at the instant a replace_entry_with closure runs inside a griddle frame (crash point = that instant), the map already satisfies INV minus the element in flight, for all contents and layouts; griddle has no drop guard on that path, so this is the state catch_unwind leaves. Other callbacks (Hash in carry, Eq, Clone, retain/drain_filter predicates, or_insert_with) are not yet covered; see DESIGN.md.",
+        text="PARTIAL: Kani has no unwinding, so a caught panic cannot be executed. Decided instead: at the instant a replace_entry_with closure runs inside a griddle frame (crash point = that instant), the map already satisfies INV minus the element in flight, for all contents and layouts; griddle has no drop guard on that path, so this is the state catch_unwind leaves. Covered callbacks: replace_entry_with (raw and occupied handles), retain (symbolic crash index), drain_filter (enumerated), or_insert_with, and_modify, and Hash invoked from insert/carry (enumerated crash index). Not covered: Eq, Clone, Drop panics and anything that needs real unwinding through hashbrown frames.",
         design_ref="DESIGN.md §5 C07", note=_KM_NOTE + " No unwinding semantics: panics inside hashbrown frames, Eq/Clone/Drop panics are outside the claim.",
         technique="SAT-based bounded model checking (Kani/CBMC); invariant asserted at callback instants"),
     "C08": dict(
